@@ -224,10 +224,13 @@ def run(ctx):
     thorough = ctx.tier == "thorough"
     rig = _RIG = cl.Rig(ctx)
     rng = ctx.rng
-    n_cfg = 200 if thorough else 60
-    n_sched = 60 if thorough else 20         # plain scheduled runs per configuration (forked workers)
+    n_cfg = 200 if thorough else 54
+    n_sched = 60 if thorough else 18         # plain scheduled runs per configuration (forked workers)
     n_real = 20 if thorough else 4
-    ctx.rule = ("cubes of both types with 3..12 sub-cubes (1-3 dimensions, each with 0-2 extra axes, extents incl. 1; N 1..8; "
+    n_wide = 16 if thorough else 6           # 'scale' configurations: wide dims (>= 17 distinct 1-D slices per calculate)
+    n_sched_wide = 200 if thorough else 72   # scheduled runs per wide configuration
+    ctx.rule = ("'scale' cubes of both types (one 2-D dimension with 17..24 columns, or 16..20 columns crossed with a 1-D dimension; "
+                "40..60 rows; >= 72 seeded schedules each, pool sizes 2..16) and cubes of both types with 3..12 sub-cubes (1-3 dimensions, each with 0-2 extra axes, extents incl. 1; N 1..8; "
                 "extents 2-3; commons frequent/rare; facts with NaN, 1 or 2 columns; weights with NaN) x aggregates {count, valid_count, "
                 "sum, mean} (+ {stddev, quantile, min, max, covariance, corrcoef} for the array cube) singly, 2-4 together and all "
                 "together, both missing policies, three report formats; per configuration: every task alone on two garbage fills, one "
@@ -253,15 +256,26 @@ def run(ctx):
     pool_sizes = set()
     oracle_hits = []        # (cfg index, run, what)
     raised_cfgs = []        # configurations whose logged scheduled run raised although the serial run returned
+    # the plan: n_cfg regular configurations (3..12 sub-cubes) followed by n_wide 'scale' configurations (17..24
+    # columns in one 2-D dimension, or 16..20 columns crossed with a 1-D dimension; 40..60 rows; both cube types)
+    plan = []
+    for i in range(n_cfg):
+        plan.append(("regular", ["ccube", "xcube"][i % 2], 3 + (i // 2) % 10, ["one", "one", "some", "all", "one", "some"][i % 6]))
+    for i in range(n_wide):
+        plan.append(("wide", ["xcube", "ccube"][i % 2], ["wide", "crossed"][(i // 2) % 2], ["one", "some"][(i // 4) % 2]))
+    wide_idx = set()
     ci = 0
     attempts = 0
-    while ci < n_cfg and attempts < n_cfg * 4:
+    while ci < len(plan) and attempts < len(plan) * 4:
         attempts += 1
-        kind = ["ccube", "xcube"][ci % 2]
-        nsub = 3 + (ci // 2) % 10
-        mode = ["one", "one", "some", "all", "one", "some"][ci % 6]
-        cfg = cl.gen_cfg(rng, kind, nsub, aggs=mode, max_cells=700)
-        ps = 1 + (ci * 5) % 16
+        what, kind, arg, mode = plan[ci]
+        if what == "regular":
+            nsub = arg
+            cfg = cl.gen_cfg(rng, kind, nsub, aggs=mode, max_cells=700)
+        else:
+            cfg = cl.gen_wide_cfg(rng, kind, arg, aggs=mode)
+            nsub = cl.nsub_of(cfg)
+        ps = 1 + (ci * 5) % 16 if what == "regular" else 2 + (ci * 5) % 15
         ob = observe(rig, cfg, rng, ci, ps)
         if "rejected" in ob:
             rejected += 1
@@ -272,11 +286,13 @@ def run(ctx):
             ci += 1
             continue
         pool_sizes.add(ps)
+        if what == "wide":
+            wide_idx.add(len(cfgs))
         obs.append(ob)
         cfgs.append(cfg)
         lits.append(case_lit(ob))
         meta.append({"case": ci, "kind": kind, "subcubes": nsub, "shapes": cfg["shapes"], "aggregates": [a["name"] for a in cfg["aggs"]]})
-        for key, val in (("kind", kind), ("subcubes", nsub), ("together", len(cfg["aggs"]))):
+        for key, val in (("kind", kind), ("subcubes", nsub if what == "regular" else "wide:%d" % nsub), ("together", len(cfg["aggs"]))):
             dist[key][val] = dist[key].get(val, 0) + 1
         for a in cfg["aggs"]:
             dist["aggregates"][a["name"]] = dist["aggregates"].get(a["name"], 0) + 1
@@ -288,7 +304,7 @@ def run(ctx):
             oracle_hits.append((ci, ob["logged_run"], "output of the scheduled run differs from the serial output", SIG_DIFF))
         if ob["interleaved"]:
             ctx.nontrivial.add(hash(json.dumps(cfg, sort_keys=True)))
-        if ci < 3:
+        if ci < 3 or (what == "wide" and len(wide_idx) == 1):
             ctx.samples.append({"cfg": cfg, "coords": ob["coords"], "logged_run": ob["logged_run"], "scheduler": ob["stats"],
                                 "observed_write_schedule": ob["schedule"][:60]})
         ctx.evaluations += 1
@@ -301,11 +317,15 @@ def run(ctx):
     for ci, (cfg, ob) in enumerate(zip(cfgs, obs)):
         k = len(ob["coords"])
         runs = []
-        for s in range(n_sched):
-            ps = 1 + (nrun * 7 + ci) % 16
+        wide = ci in wide_idx
+        for s in range(n_sched_wide if wide else n_sched):
+            # wide cubes: at least 2 workers, mostly long runs between switches (cheap, and what a check-then-act
+            # window between two statements of one task needs: the OTHER workers must get through whole tasks meanwhile)
+            ps = 2 + (nrun * 7 + ci) % 15 if wide else 1 + (nrun * 7 + ci) % 16
             pool_sizes.add(ps)
             runs.append({"mode": "det", "poolsize": ps, "seed": rng.randrange(1 << 30),
-                         "p_switch": [1.0, 0.3, 1.0, 0.05][s % 4], "granularity": "opcode"})
+                         "p_switch": [0.05, 0.3, 0.1, 1.0, 0.05, 0.02][s % 6] if wide else [1.0, 0.3, 1.0, 0.05][s % 4],
+                         "granularity": "opcode"})
             nrun += 1
         runs.append({"mode": "order", "order": list(reversed(range(k)))})
         runs.append({"mode": "order", "order": rng.sample(range(k), k)})
@@ -334,9 +354,11 @@ def run(ctx):
     res = core.run_cases("c16", "From Catii Require Import Conc.Interleave Conc.Check.", lits, "c16case", "c16_check", "c16_explain",
                          shard_size=max(1, (len(lits) + 15) // 16), timeout=900)
     ctx.coverage.update({
-        "distribution": {k: {str(a): b for a, b in sorted(v.items())} for k, v in dist.items()},
+        "distribution": {k: {str(a): b for a, b in sorted(v.items(), key=lambda t: (isinstance(t[0], str), t[0]))} for k, v in dist.items()},
         "rejected_inputs": rejected,
         "configurations": len(cfgs),
+        "wide_configurations": {"count": len(wide_idx), "columns": "17..24 in one 2-D dim, or 16..20 crossed with a 1-D dim", "rows": "40..60",
+                                "scheduled_runs_each": n_sched_wide, "pool_sizes": "2..16", "p_switch": [0.05, 0.3, 0.1, 1.0, 0.05, 0.02]},
         "pool_sizes": sorted(pool_sizes),
         "granularity": "opcode (every bytecode executed in a catii frame is a scheduling point); whole-task for the permutation runs",
         "schedules": {"deterministic_scheduler": counts["det"] + len(cfgs), "whole_task_permutations": counts["order"],
